@@ -1725,7 +1725,7 @@ def run(chk: core.Check):
                 "nest by reference / merge through add, //=, //, @=, @ / barrier / copy() / set_value / evaluation through any "
                 "handle; 10% with an inadmissible range) sent as histories to the Lean heap model and run with the real API, "
                 "every evaluation compared (non-trivial = at least one sub-circuit added); small circuits are also evaluated "
-                "symbolically (quick: a share, thorough: all circuits of at most 4 modes), with values and with the variables "
+                "symbolically (quick: a share, thorough: all circuits of at most 4 modes and 16 leaves, a tenth of the longer ones), with values and with the variables "
                 "left symbolic and substituted afterwards; plus construction programs whose BS/PS leaves are bound to variable "
                 "parameters that receive values, and then other values, after assembly; plus histories of the registry "
                 "machine (Parameter objects some of which share a name, defined or not; leaves bound to them; add / nest / "
@@ -1761,7 +1761,9 @@ def run(chk: core.Check):
     for i in range(n):
         m = rng.randint(1, max_m)
         expr = gen_circ(rng, m, rng.randint(0, max_depth), rng.randint(1, max_ops), malformed=(rng.random() < 0.1))
-        if m <= 4 and rng.random() < chk.pick(0.35, 1.0) and n_leaves(expr) <= SYM_MAX_LEAVES:
+        # sympy's cost explodes on long narrow circuits (3 modes, 31 leaves: 90 s): beyond 16 leaves only a tenth
+        if m <= 4 and rng.random() < chk.pick(0.35, 1.0 if n_leaves(expr) <= 16 else 0.1) and \
+                n_leaves(expr) <= SYM_MAX_LEAVES:
             expr["symbolic"] = True
         batch.append(expr)
     for expr in batch:
